@@ -234,8 +234,8 @@ def rename_attributes(tree, ref):
         missing = [w for w in want if w not in have]
         if not unknown or len(unknown) != len(missing):
             continue
-        if not all(u.startswith('_') and w.startswith('_') for u, w in zip(unknown, missing)):
-            continue            # public attributes are part of the interface of other modules: not a local rename
+        if not all(u.startswith('_') for u in unknown):
+            continue            # a new public name may be a new part of the interface, not a rename
         mapping = dict(zip(unknown, missing))
         for node in ast.walk(tree):
             if isinstance(node, ast.Attribute) and node.attr in mapping:
@@ -429,6 +429,7 @@ def _expand_call(stmt, call, helper, skip_first):
         body = [s_.visit(x) for x in body]
     if any(isinstance(n, (ast.Yield, ast.YieldFrom, ast.Await)) for x in body for n in _own_walk(x)):
         return None
+    body = _structure_returns(body)              # guard clauses `if c: ...; return x` + rest  ->  if/else with the returns in tail position
     rets = _returns(body)
     # (a) statement call
     if isinstance(stmt, ast.Expr) and stmt.value is call:
@@ -453,11 +454,13 @@ def _expand_call(stmt, call, helper, skip_first):
             return [ast.copy_location(ast.Assign(targets=copy.deepcopy(tg), value=r.value if r.value is not None else ast.Constant(value=None), lineno=r.lineno), r)]
         if not rets:
             return None
+        if _lower_loop_returns(body, tg):
+            return lead + body
         if not _tail_returns_to(body, mk):
             return None
         if not same[0] and not _all_paths_assign(body):
             return None
-        return lead + body
+        return lead + _untuple(body)
     # (d) call embedded in a larger expression of a simple statement / an if test: single trailing return
     if len(rets) == 1 and isinstance(body[-1], ast.Return) and body[-1].value is not None:
         pre, val = body[:-1], body[-1].value
@@ -481,7 +484,125 @@ def _expand_call(stmt, call, helper, skip_first):
         else:
             new = R().visit(stmt)
         return lead + pre + [new]
+    # (e) call inside the test of an if / the value of a simple statement, helper with several returns: bind the result first,
+    #     the binding is then expanded as case (c) on the next pass
+    if rets and isinstance(stmt, (ast.If, ast.Assign, ast.AugAssign, ast.Expr, ast.Return)):
+        tmp = '%s_result' % helper.name.lstrip('_')
+        bind = ast.copy_location(ast.Assign(targets=[ast.Name(id=tmp, ctx=ast.Store())], value=call, lineno=stmt.lineno), stmt)
+
+        class R2(ast.NodeTransformer):
+            def visit_Call(self, n):
+                if n is call:
+                    return ast.copy_location(ast.Name(id=tmp, ctx=ast.Load()), n)
+                self.generic_visit(n)
+                return n
+        if isinstance(stmt, ast.If):
+            stmt.test = R2().visit(stmt.test)
+            new = stmt
+        else:
+            new = R2().visit(stmt)
+        if any(isinstance(n, ast.Name) and n.id == tmp and isinstance(n.ctx, ast.Store) for n in ast.walk(new)):
+            return None
+        return [bind, new]
     return None
+
+
+def _structure_returns(stmts):
+    """`if c: A; return x` followed by REST  ->  `if c: A; return x  else: REST` (recursively), so that every return of a straight-line
+    helper ends up in tail position.  Meaning preserving: REST only ever ran when the guarded block did not leave."""
+    for i, s_ in enumerate(stmts):
+        if isinstance(s_, ast.If):
+            s_.body = _structure_returns(s_.body)
+            s_.orelse = _structure_returns(s_.orelse)
+            rest = stmts[i + 1:]
+            if rest and not s_.orelse and _all_paths_leave(s_.body):
+                s_.orelse = _structure_returns(rest)
+                return stmts[:i + 1]
+            if rest and s_.orelse and _all_paths_leave(s_.orelse) and not _all_paths_leave(s_.body):
+                s_.body = s_.body + _structure_returns(rest)
+                return stmts[:i + 1]
+    return stmts
+
+
+def _untuple(stmts):
+    """(a, b) = (e1, e2) written by the inliner -> a = e1; b = e2 when no later element reads an earlier target (recursively in tail ifs)"""
+    out = []
+    for st in stmts:
+        if isinstance(st, ast.Assign) and len(st.targets) == 1 and isinstance(st.targets[0], ast.Tuple) and isinstance(st.value, ast.Tuple) and \
+                len(st.targets[0].elts) == len(st.value.elts) and all(isinstance(t, ast.Name) for t in st.targets[0].elts):
+            names = [t.id for t in st.targets[0].elts]
+            safe = all(not any(isinstance(n, ast.Name) and n.id in names[:k] for n in ast.walk(v)) for k, v in enumerate(st.value.elts))
+            if safe:
+                for t, v in zip(st.targets[0].elts, st.value.elts):
+                    if isinstance(v, ast.Name) and v.id == t.id:
+                        continue                      # x = x
+                    out.append(ast.copy_location(ast.Assign(targets=[ast.Name(id=t.id, ctx=ast.Store())], value=v, lineno=st.lineno), st))
+                continue
+        if isinstance(st, ast.If):
+            st.body = _untuple(st.body)
+            st.orelse = _untuple(st.orelse)
+        out.append(st)
+    return out
+
+
+def _lower_loop_returns(body, tg):
+    """body = [..., loop with `return V` inside, `return Y`]  (the shape of a search helper), used as ``tg = helper()``:
+    every `return V` of the loop becomes `tg = V; break` and the final `return Y` becomes the loop's else clause.  Only when the loop
+    has no break / else of its own, the returns sit directly in that loop (not in a nested loop) and nothing else returns."""
+    if len(body) < 2 or not isinstance(body[-1], ast.Return) or not isinstance(body[-2], (ast.For, ast.While)):
+        return False
+    loop, last = body[-2], body[-1]
+    if loop.orelse:
+        return False
+    if any(isinstance(n, ast.Return) for s_ in body[:-2] for n in _own_walk(s_)):
+        return False
+
+    def direct(node, found):
+        # statements of the loop body that are not inside a nested loop
+        for f in ('body', 'orelse', 'finalbody'):
+            b = getattr(node, f, None)
+            if isinstance(b, list):
+                for s_ in b:
+                    if isinstance(s_, (ast.For, ast.While)):
+                        if any(isinstance(n, ast.Return) for n in _own_walk(s_)):
+                            found.append('nested')
+                        continue
+                    if isinstance(s_, (ast.FunctionDef, ast.AsyncFunctionDef, ast.ClassDef)):
+                        continue
+                    if isinstance(s_, ast.Break):
+                        found.append('break')
+                    direct(s_, found)
+        for h in getattr(node, 'handlers', []) or []:
+            direct(h, found)
+    bad = []
+    direct(loop, bad)
+    if bad or not any(isinstance(n, ast.Return) for n in _own_walk(loop)):
+        return False
+
+    def assign(v, like):
+        return ast.copy_location(ast.Assign(targets=copy.deepcopy(tg), value=v if v is not None else ast.Constant(value=None), lineno=like.lineno), like)
+
+    def rewrite(node):
+        for f in ('body', 'orelse', 'finalbody'):
+            b = getattr(node, f, None)
+            if isinstance(b, list):
+                i = 0
+                while i < len(b):
+                    s_ = b[i]
+                    if isinstance(s_, ast.Return):
+                        b[i:i + 1] = [assign(s_.value, s_), ast.copy_location(ast.Break(), s_)]
+                        i += 2
+                        continue
+                    if not isinstance(s_, (ast.For, ast.While, ast.FunctionDef, ast.AsyncFunctionDef, ast.ClassDef)):
+                        rewrite(s_)
+                    i += 1
+        for h in getattr(node, 'handlers', []) or []:
+            rewrite(h)
+    body_only = ast.Module(body=loop.body, type_ignores=[])
+    rewrite(body_only)
+    loop.orelse = [assign(last.value, last)]
+    del body[-1]
+    return True
 
 
 def _all_paths_leave(stmts):
